@@ -52,7 +52,13 @@ func ZZ_C18_Snapshots() {
 				in[i] = zzrt.NondetBool("inSnapshot")
 			}
 			if in[i] {
-				snap = append(snap, uni[i])
+				m := uni[i]
+				if i > 0 && zzrt.Param("MOVE") == 1 && zzrt.NondetBool("listedUnderAnotherHost") {
+					// the same member (same ID, same kinds) listed under another address: the view is by member ID
+					m = &Member{ID: m.ID, Host: "elsewhere:" + string(rune('0'+i)), Kinds: m.Kinds, Region: m.Region}
+					zzrt.Reach("member-listed-under-another-host")
+				}
+				snap = append(snap, m)
 			}
 		}
 		if len(snap) > 1 && zzrt.NondetBool("duplicate") {
